@@ -429,10 +429,10 @@ pub fn gen_srv_case(rng: &mut Rng, profile: Profile, prop: &'static str) -> SrvC
             }
             _ => {
                 let c = *rng.pick(&hostiles);
-                if rng.chance(2, 3) {
-                    SStep::FaultRead(c, if rng.chance(1, 2) { libc::EAGAIN } else { libc::EINTR })
-                } else {
-                    SStep::FaultWriteEintr(c)
+                match rng.below(4) {
+                    0 | 1 => SStep::FaultRead(c, if rng.chance(1, 2) { libc::EAGAIN } else { libc::EINTR }),
+                    2 => SStep::SpuriousIn(c),
+                    _ => SStep::FaultWriteEintr(c),
                 }
             }
         };
@@ -797,6 +797,10 @@ impl Prop for C09 {
             // "however late the application answers": tens of thousands of unanswered requests
             return crate::flood::gen_flood(rng);
         }
+        if rng.chance(1, 10_000) {
+            // hundreds to tens of thousands of short-lived clients, one after another
+            return crate::flood::gen_turnstile(rng);
+        }
         gen_srv_case(rng, Profile::Hostile, "C09").to_json()
     }
     fn exec(&self, case: &J, st: &mut Stats) -> Result<RunOut, String> {
@@ -900,15 +904,25 @@ impl Prop for C10 {
         true
     }
     fn gen(&self, rng: &mut Rng, _tier: Tier, _index: u64) -> J {
+        if rng.chance(1, 8_000) {
+            // capacity regained again and again: hundreds to tens of thousands of short-lived clients
+            return crate::flood::gen_turnstile(rng);
+        }
         gen_srv_case(rng, Profile::Capacity, "C10").to_json()
     }
     fn exec(&self, case: &J, st: &mut Stats) -> Result<RunOut, String> {
+        if crate::flood::is_flood(case) {
+            return crate::flood::exec_flood(case, "C10", st);
+        }
         let case = SrvCase::from_json(case)?;
         let out = exec_srv(&case, flags_for("C10", Profile::Capacity), st, true);
         let p = &out.sim_probe;
         Ok(RunOut { violation: out.violation, nontrivial: p.max_open >= 10, sig: out.sig, trace_hash: out.obs ^ out.sig.rotate_left(17) })
     }
     fn shrink(&self, case: &J) -> Vec<J> {
+        if crate::flood::is_flood(case) {
+            return crate::flood::shrink_flood(case);
+        }
         shrink_json(case)
     }
 }
